@@ -7,6 +7,7 @@ use serde_json::Value;
 
 pub fn check(name: &str, case: &Value, v: &Violation) -> bool {
     match name {
+        "display_claim_on_constrained_string" => v.detail.contains("has_impl(Display)") && any_schema_node(case, &mut |o| o.contains_key("minLength") || o.contains_key("maxLength") || o.contains_key("pattern")),
         "date_time_native" => any_schema_node(case, &mut |o| o.get("format") == Some(&Value::String("date-time".into()))),
         "property_default_on_inline_struct" => case.pointer("/extra/schema/type") == Some(&Value::String("object".into())) && case.pointer("/extra/schema/properties").is_some() && case.pointer("/history/0/doc/definitions/Holder/properties/p/default").is_some(),
         "default_on_formatted_string" => case.pointer("/extra/schema/format").is_some() && case.pointer("/extra/schema/type") == Some(&Value::String("string".into())),
